@@ -1,8 +1,8 @@
 SPECIFICATION Spec
-CONSTANT Cfg <- MCCfg3x3a2
-CONSTANT Limits = {1, 2, 3}
+CONSTANT Cfg <- MCCfg3x3a3
+CONSTANT Limits = {1, 2}
 CONSTANT Starts0 <- CornerOnly
-CONSTANT Starts1 <- AllStarts
+CONSTANT Starts1 <- NearCorner
 CONSTRAINT Bounded
 VIEW View
 INVARIANT Protocol
